@@ -100,12 +100,15 @@ func MigrateContextReference(path string, rawDates bool) string {
 	return path
 }
 
-var numericLookupRegex = regexp.MustCompile(`\.\d+\w*`)
+// a lookup which can't be written with a dot in the new syntax: one that starts with a digit, or one spelled like a
+// keyword (true, false and null are literals there, wherever they occur)
+var numericLookupRegex = regexp.MustCompile(`\.(?:\d+\w*|(?:true|false|null)\b)`)
 
 // fixes property lookups
 //
 //	.1 => ["1"]
 //	.1foo  => ["1foo"]
+//	.null  => ["null"]
 func fixLookups(path string) string {
 	return numericLookupRegex.ReplaceAllStringFunc(path, func(lookup string) string {
 		return `["` + lookup[1:] + `"]`
